@@ -9,7 +9,10 @@ The real cli.parser.parse_config_file is executed by the control executor on an 
        cache overrides load/save;
   (K5) static inclusion chain: documented keys (docs/manual/cli.rst) <= recognised keys; keys emitted under simulation_options /
        solver_opts / gridding_opts / layered_opts / noise_kwargs / data are accepted by the API (names collected from the API source);
-  (K6) cli.run.simulation: the [data] section reaches Survey.select with every given key, the simulation options reach Simulation.
+  (K6) cli.run.simulation: the [data] section reaches Survey.select with every given key, the simulation options reach Simulation;
+  (K7) values: every documented option written in the documented format (`key = value   # comment`, comma-separated lists, lists of lists separated by semi-colons,
+       with or without blanks around the separators) arrives at its destination with the value the equivalent API call is given; the abstract ConfigParser models
+       the value extraction of configparser (inline comments as configured by the constructor call of the code under contract).
 Not covered: equality of computed results between CLI and API.
 """
 import ast
@@ -35,39 +38,116 @@ SAMPLE = {  # sample textual values (only their parse-ability matters)
 
 def replay(d):
     from . import c18_concrete
+    if '/cli.parser/values/' in d.get('id', ''):        # value clauses: the scenario that writes values in the documented format first
+        r = ob.guarded(c18_concrete.check_values)
+        if r.get('reproduced'):
+            return r
     return ob.guarded(c18_concrete.check)
 
 
-def cfg_handlers(sections, log):
-    """abstract configparser.ConfigParser over `sections` (dict section -> dict key -> str)"""
+CFG_TRUST = ('configparser.ConfigParser (dependency contract, as modelled in contracts/c18.cfg_handlers): option names are compared as given (lower case); a value is the text '
+             'right of the first delimiter up to the first INLINE COMMENT -- the earliest occurrence of one of the constructor\'s inline_comment_prefixes that stands at the start of the '
+             'line or after white space (none by default) -- stripped of surrounding white space; getint / getfloat / getboolean = int / float / BOOLEAN_STATES of that value')
+BOOLEAN_STATES = {'1': True, 'yes': True, 'true': True, 'on': True, '0': False, 'no': False, 'false': False, 'off': False}
+
+
+def cfg_value(key, raw, inline_prefixes):
+    """configparser.RawConfigParser._read on the single line `key = raw`: cut at the first inline-comment prefix that is at position 0 or preceded by white
+    space, strip, split at the first delimiter"""
+    line = f'{key} = {raw}'
+    start = len(line)
+    nxt = {p: -1 for p in inline_prefixes}
+    while start == len(line) and nxt:          # round by round, as RawConfigParser._read does
+        cur, nxt = nxt, {}
+        for pre, i in cur.items():
+            i = line.find(pre, i + 1)
+            if i == -1:
+                continue
+            nxt[pre] = i
+            if i == 0 or line[i - 1].isspace():
+                start = min(start, i)
+    line = line[:start].strip()
+    m = re.match(r'(?P<option>.*?)\s*(?:=|:)\s*(?P<value>.*)$', line)
+    if not m:
+        raise cx.Unsupported(f'configuration line {line!r} outside the modelled format')
+    return m.group('value').strip()
+
+
+def cfg_handlers(sections, log, values=False):
+    """abstract configparser.ConfigParser over `sections` (dict section -> dict key -> text right of the `=` as written in the file, inline comment included).
+    values=False: getint / getfloat / getboolean return typed tokens (kind, section, key); values=True: they convert the text as configparser does."""
+    st = dict(inline=())
+
     def ctor(it, f, args, kw, node):
+        # strict only concerns duplicate sections / options, comment_prefixes only lines that START with a prefix: neither occurs in the abstract file
+        extra = set(kw) - {'inline_comment_prefixes', 'strict', 'comment_prefixes'}
+        cpre = kw.get('comment_prefixes', ('#', ';'))
+        cpre = tuple(cpre) if isinstance(cpre, (str, tuple, list)) else None
+        if args or extra or cpre is None or any(not isinstance(c, str) or not c or k.startswith(c) for c in cpre for sec in sections.values() for k in sec):
+            # defaults, delimiters, interpolation, ...: not modelled => undecided, never a verdict
+            raise cx.Unsupported(f'configparser.ConfigParser called with arguments outside the modelled dependency contract: {sorted(extra) or "positional / comment_prefixes"}')
+        pre = kw.get('inline_comment_prefixes')
+        if pre is None:
+            pre = ()
+        if isinstance(pre, str):
+            pre = tuple(pre)
+        if not (isinstance(pre, (tuple, list)) and all(isinstance(x, str) and x for x in pre)):
+            raise cx.Unsupported('inline_comment_prefixes is not a string / tuple of non-empty strings')
+        st['inline'] = tuple(pre)
+        log.append(('ConfigParser', tuple(pre)))
         o = cx.Obj('ConfigParser', {})
         for m in ('sections', 'add_section', 'items', 'has_option', 'get', 'getint', 'getfloat', 'getboolean', 'read_file'):
             o.fields[m] = cx.LibFn('cfg.' + m, bound=o)
         return o
 
+    def bind(args, kw, names):
+        kw = dict(kw)
+        out = list(args)
+        for n in names[len(out):]:
+            if n not in kw:
+                raise cx.Unsupported(f'ConfigParser method called without `{n}`')
+            out.append(kw.pop(n))
+        if kw or len(out) != len(names) or not all(isinstance(x, str) for x in out):
+            raise cx.Unsupported(f'ConfigParser method called with arguments outside the modelled dependency contract: {sorted(kw)}')
+        return out
+
+    def val(sec, key):
+        return cfg_value(key, sections[sec][key], st['inline'])
+
     def sections_(it, f, args, kw, node):
         return list(sections.keys())
 
     def add_section(it, f, args, kw, node):
-        sections.setdefault(args[0], {})
+        sections.setdefault(bind(args, kw, ['section'])[0], {})
 
     def items(it, f, args, kw, node):
-        d = dict(sections[args[0]])
-        log.append(('items', args[0], d))
+        sec, = bind(args, kw, ['section'])
+        d = {k: val(sec, k) for k in sections[sec]}
+        log.append(('items', sec, d))
         return list(d.items())
 
     def has_option(it, f, args, kw, node):
-        log.append(('has_option', args[0], args[1]))
-        return args[1] in sections.get(args[0], {})
+        sec, key = bind(args, kw, ['section', 'option'])
+        log.append(('has_option', sec, key))
+        return key in sections.get(sec, {})
 
     def get(kind):
         def g(it, f, args, kw, node):
-            v = sections[args[0]][args[1]]
-            log.append(('get', kind, args[0], args[1]))
+            sec, key = bind(args, kw, ['section', 'option'])
+            v = val(sec, key)
+            log.append(('get', kind, sec, key))
             if kind == 'str':
                 return v
-            return (kind, args[0], args[1])        # typed token
+            if not values:
+                return (kind, sec, key)        # typed token
+            try:
+                if kind == 'bool':
+                    if v.lower() not in BOOLEAN_STATES:
+                        raise ValueError(v)
+                    return BOOLEAN_STATES[v.lower()]
+                return dict(int=int, float=float)[kind](v)
+            except ValueError:
+                raise cx._Raise(cx.ExcVal('ValueError', (f'{kind}: {v!r}',)))
         return g
     return {'configparser.ConfigParser': ctor, 'cfg.sections': sections_, 'cfg.add_section': add_section, 'cfg.items': items, 'cfg.has_option': has_option,
             'cfg.get': get('str'), 'cfg.getint': get('int'), 'cfg.getfloat': get('float'), 'cfg.getboolean': get('bool'), 'cfg.read_file': lambda *a: None}
@@ -119,13 +199,13 @@ TERM0 = dict(config='emg3d.cfg', verbosity=0, nproc=None, dry_run=False, clean=F
              path=None, survey=None, model=None, output=None, save=None, load=None, cache=None)
 
 
-def run_parser(sections, term=None):
+def run_parser(sections, term=None, values=False):
     out = {}
 
     def mk(ctx):
         log = []
         pl = ctx.opts.setdefault('prelude', {})
-        pl.update(cfg_handlers(sections, log))
+        pl.update(cfg_handlers(sections, log, values))
         pl.update(env_handlers(log))
         t = dict(TERM0)
         t.update(term or {})
@@ -372,6 +452,182 @@ def task_run():
     return col.pack()
 
 
+# ---------------------------------------------------------------------------------------------------------------- K7: values
+# API values of the documented options (what one would pass to Simulation / solve / estimate_gridding_opts / add_noise / Survey.select / ellipse_indices), keyed by
+# section; the configuration text is RENDERED from them in the documented format (docs/manual/cli.rst: `key = value   # comment`; "lists are comma-separated values,
+# lists are separated by semi-colons"), so the specification of the parser is simply: the value that arrives is the value that was written.
+XYZ = ('x', 'y', 'z')
+API_VALUES = {
+    'files': dict(path='/data', survey='survey.h5', model='model.npz', output='out.json', save='sim.h5', load='old.h5'),
+    'simulation': dict(max_workers=4, gridding='single', name='MyTestSimulation', file_dir='fdir', receiver_interpolation='linear', layered=True),
+    'solver_opts': dict(sslsolver=True, semicoarsening=False, linerelaxation=True, cycle='F', tol=1e-05, tol_gradient=0.001, verb=3, maxit=17, nu_init=1, nu_pre=2,
+                        nu_coarse=3, nu_post=4, clevel=5, plain=False),
+    'gridding_opts': dict(properties=[0.3, 1.0, 100000.0], center=[10.0, -20.0, 30.0], cell_number=[8, 16, 32, 64, 128], min_width_pps=[5, 3, 4],
+                          domain=dict(x=[-10000.0, 10000.0], y=None, z=[-4000.0, 500.0]), distance=dict(x=None, y=None, z=[-10000.0, 10000.0]),
+                          stretching=dict(x=[1.0, 1.3], y=[1.0, 1.6], z=[1.05, 1.5]), min_width_limits=dict(x=[10.0, 100.0], y=None, z=[50.0, 400.0]),
+                          center_on_edge=dict(x=False, y=False, z=True), mapping='Resistivity', vector='xy', frequency=1.5, seasurface=-200.0, max_buffer=100000.0,
+                          lambda_factor=0.8, verb=1, lambda_from_center=True),
+    'noise_opts': dict(add_noise=True, min_offset=500.0, max_offset=8000.0, mean_noise=0.1, ntype='white_noise'),
+    'data': dict(sources=['TxED-02', 'TxMD-08', 'TxEW-14'], receivers=['RxEP-01', 'RxMP-10'], frequencies=['f-1', 'f-3'], remove_empty=False),
+    'layered': dict(method='prism', radius=1000.0, factor=1.2, minor=0.8, merge=True, check_foci=False),
+}
+# one list / one switch for all three directions (second documented form of the "list of lists" options)
+API_VALUES_SINGLE = dict(domain=[-10000.0, 10000.0], distance=[-5000.0, 5000.0], stretching=[1.0, 1.5], min_width_limits=[10.0, 100.0], center_on_edge=True)
+UNDOCUMENTED_BUT_API = {'gridding_opts': ['center_on_edge']}       # recognised by the parser, an argument of the API, not listed in cli.rst
+COMMA = (', ', ',', ' , ')
+SEMI = ('; ', ';', ' ; ', ' ;')
+COMMENT = ('', '   # list of lists, e.g.: -10, 10; None; None', ' # bool')
+
+
+def render(v, comma, semi):
+    """text of an API value in the documented format"""
+    if isinstance(v, dict) and set(v) == set(XYZ):
+        return semi.join(render(v[d], comma, semi) for d in XYZ)
+    if isinstance(v, list):
+        return comma.join(render(x, comma, semi) for x in v)
+    if v is None or isinstance(v, (bool, str)):
+        return str(v)
+    return repr(v)
+
+
+def plain(v):
+    if v is None or isinstance(v, (bool, str, int, float)):
+        return True
+    if isinstance(v, (list, tuple)):
+        return all(plain(x) for x in v)
+    if isinstance(v, dict):
+        return all(isinstance(k, str) and plain(x) for k, x in v.items())
+    return False
+
+
+def same_value(a, b):
+    """structural equality of plain values; numbers by value (the CLI reads every number of a list as float), bools / None / strings exactly;
+    None when one side is not a plain value (symbolic / opaque): the clause cannot say"""
+    if not (plain(a) and plain(b)):
+        return None
+    if isinstance(a, bool) or isinstance(b, bool) or a is None or b is None or isinstance(a, str) or isinstance(b, str):
+        return type(a) is type(b) and a == b
+    if isinstance(a, (int, float)) and isinstance(b, (int, float)):
+        return a == b
+    if isinstance(a, (list, tuple)) and isinstance(b, (list, tuple)):
+        return len(a) == len(b) and all(same_value(x, y) for x, y in zip(a, b))
+    if isinstance(a, dict) and isinstance(b, dict):
+        return set(a) == set(b) and all(same_value(a[k], b[k]) for k in a)
+    return False
+
+
+def destination(out, sec, key):
+    """where the API value of [sec] key is handed over in the result of parse_config_file (cli.run passes out['simulation_options'] as keyword arguments to Simulation,
+    out['noise_kwargs'] to compute(), out['data'] to Survey.select -- K6)"""
+    simo = out['simulation_options']
+    if sec == 'files':
+        return out['files'], key
+    if sec == 'simulation':
+        return simo, key
+    if sec in ('solver_opts', 'gridding_opts'):
+        return simo.get(sec, {}), key
+    if sec == 'noise_opts':
+        return out['noise_kwargs'], key
+    if sec == 'data':
+        return out['data'], key
+    lo = simo.get('layered_opts', {})
+    return (lo.get('ellipse', {}) if key in ('radius', 'factor', 'minor', 'check_foci') else lo), key
+
+
+def task_values():
+    """K7: every documented option, written in the documented format (blanks around the separators or not, trailing `# comment` or not), arrives at its destination with
+    the value the equivalent API call is given."""
+    col = ob.Collector(PROP, 'cli.parser/values')
+    col.default_replay = replay
+    col.function('cli/parser.parse_config_file')
+    col.trust(CFG_TRUST)
+    doc = documented()
+    bad = {s: [] for s in SECTIONS}        # (key, text, got, want)
+    unsure = {s: [] for s in SECTIONS}
+    nrun = 0
+
+    def one(sec, vals, comma, semi, comment, only=None):
+        """run the real parser on [sec] holding `vals` rendered with the given separators; compare what arrives"""
+        nonlocal nrun
+        text = {k: render(v, comma, semi) + comment for k, v in vals.items()}
+        secs = {sec: dict(text)}
+        if sec != 'files':
+            secs['files'] = {'path': '/data'}
+        res = run_parser(secs, values=True)
+        nrun += 1
+        for r in res:
+            if r.outcome != 'return':
+                bad[sec].append(('<all keys>', text, f'{r.outcome}: {r.value!r}', 'accepted'))
+                continue
+            out = r.value[0]
+            for k, want in vals.items():
+                if only is not None and k not in only:
+                    continue
+                if sec == 'files':
+                    if k == 'path':
+                        continue
+                    want = vals['path'] + '/' + want
+                d, dk = destination(out, sec, k)
+                got = d.get(dk, '<absent>') if isinstance(d, dict) else '<no destination>'
+                eq = same_value(got, want)
+                if eq is None:
+                    unsure[sec].append((k, text[k], repr(got)))
+                elif not eq:
+                    bad[sec].append((k, text[k], repr(got), repr(want)))
+
+    for sec in SECTIONS:
+        vals = API_VALUES[sec]
+        for comma, semi, comment in itertools.product(COMMA, SEMI, COMMENT):
+            one(sec, vals, comma, semi, comment)
+    for comma, comment in itertools.product(COMMA, COMMENT):
+        one('gridding_opts', API_VALUES_SINGLE, comma, '; ', comment)
+    # the specification covers every documented key (a key added to the documentation without a value here leaves the clause undecided, not proved)
+    for sec in SECTIONS:
+        known = set(API_VALUES[sec]) | ({'cache'} if sec == 'files' else set())
+        notcov = [k for k in doc.get(sec, []) if k not in known]
+        extra = [k for k in API_VALUES[sec] if k not in doc.get(sec, []) and k not in UNDOCUMENTED_BUT_API.get(sec, [])]
+        oid = f'K7_documented_option_written_in_the_documented_format_arrives_with_the_API_value/{sec}'
+        if notcov or extra:
+            col.undecided(oid, f'contract table API_VALUES does not line up with docs/manual/cli.rst: documented without value {notcov}, valued but undocumented {extra}')
+        elif unsure[sec]:
+            col.undecided(oid, f'the parser delivers something that is not a plain value: {unsure[sec][:3]}')
+        else:
+            d = col.lia(oid, [], z3.BoolVal(not bad[sec]), sample=(sec == 'gridding_opts'))
+            if bad[sec]:
+                k, text, got, want = bad[sec][0]
+                d['reason'] = f'[{sec}] {k} = {text!r}: arrives as {got}, the API value is {want} ({len(bad[sec])} failing (key, rendering) pairs)'
+                d['failing'] = [dict(key=b[0], text=b[1], got=b[2], want=b[3]) for b in bad[sec][:12]]
+    # cache = X  <=>  load = X and save = X
+    res = run_parser({'files': {'path': '/data', 'cache': 'cch.h5   # shortcut'}}, values=True)
+    ok = len(res) == 1 and res[0].outcome == 'return' and res[0].value[0]['files'].get('load') == '/data/cch.h5' and res[0].value[0]['files'].get('save') == '/data/cch.h5'
+    col.lia('K7_cache_is_load_and_save', [], z3.BoolVal(bool(ok)))
+    # the comment character of the documented format is `#` only: a semi-colon (the list separator) never starts a comment, wherever the blanks are
+    semis = []
+    for comma, semi in itertools.product(COMMA, SEMI):
+        v = API_VALUES['gridding_opts']['stretching']
+        res = run_parser({'files': {'path': '/data'}, 'gridding_opts': {'stretching': render(v, comma, semi)}}, values=True)
+        for r in res:
+            got = r.value[0]['simulation_options'].get('gridding_opts', {}).get('stretching') if r.outcome == 'return' else r.outcome
+            semis.append((semi, same_value(got, v) if r.outcome == 'return' else False, got))
+    if any(x[1] is None for x in semis):
+        col.undecided('K7_semicolon_separates_lists_with_or_without_blanks', 'the parser delivers something that is not a plain value')
+    else:
+        d = col.lia('K7_semicolon_separates_lists_with_or_without_blanks', [], z3.BoolVal(all(x[1] for x in semis)))
+        f = [x for x in semis if not x[1]]
+        if f:
+            d['reason'] = f'lists separated by {f[0][0]!r}: stretching arrives as {f[0][2]!r}'
+    col.lia('K7_renderings_explored', [], z3.BoolVal(nrun == len(SECTIONS) * len(COMMA) * len(SEMI) * len(COMMENT) + len(COMMA) * len(COMMENT)))
+    # canaries: a perturbed API value / "everything after a blank and a semi-colon is a comment" must be refuted
+    v = dict(API_VALUES['gridding_opts']['stretching'], z=[1.05, 1.6])
+    res = run_parser({'files': {'path': '/data'}, 'gridding_opts': {'stretching': render(API_VALUES['gridding_opts']['stretching'], ', ', '; ')}}, values=True)
+    got = [r.value[0]['simulation_options'].get('gridding_opts', {}).get('stretching') for r in res if r.outcome == 'return']
+    col.canary_lia('canary/K7_perturbed_API_value', [], z3.BoolVal(bool(got) and all(same_value(g, v) is True for g in got)))
+    res = run_parser({'files': {'path': '/data'}, 'solver_opts': {'tol': '1e-5   # float'}}, values=True)
+    got = [r.value[0]['simulation_options'].get('solver_opts', {}).get('tol') for r in res if r.outcome == 'return']
+    col.canary_lia('canary/K7_value_arrives_as_text', [], z3.BoolVal(bool(got) and all(g == '1e-5' for g in got)))
+    return col.pack()
+
+
 def task_concrete():
     from . import c18_concrete
     col = ob.Collector(PROP, 'concrete')
@@ -383,16 +639,24 @@ def task_concrete():
     r = ob.guarded(c18_concrete.check_terminal)
     col.concrete('every_terminal_option_reaches_the_run_with_its_name_and_value', r['reproduced'] is False, r,
                  bounded='each documented terminal option alone (short and long form), one combination, three mutually exclusive pairs', cases=r.get('cases', 0))
+    r = ob.guarded(c18_concrete.check_values)
+    col.concrete('gridding_opts_in_the_documented_list_of_lists_format_give_the_API_grid', r['reproduced'] is False, r,
+                 bounded='one small survey/model; dry runs through emg3d.cli.main.main with [gridding_opts] lists of lists rendered with 4 separator / comment styles (three lists) and '
+                         '2 (one list for all directions) vs Simulation(gridding_opts=<dicts>): options handed over and computational grid', cases=r.get('cases', 0))
+    r = ob.guarded(c18_concrete.check_cfg_model)
+    col.concrete('configparser_model_of_the_deductive_part_agrees_with_configparser', r['reproduced'] is False, r,
+                 bounded='lines built from up to 4 atoms (numbers, separators with and without blanks, comments), inline_comment_prefixes in {(), #, (#,;), ;}', cases=r.get('cases', 0))
     return col.pack()
 
 
 def tasks(tier):
-    return [('contracts.c18', n, {}) for n in ('task_keys', 'task_precedence', 'task_run', 'task_concrete')]
+    return [('contracts.c18', n, {}) for n in ('task_keys', 'task_precedence', 'task_values', 'task_run', 'task_concrete')]
 
 
 LEVEL = ('The real configuration parser is executed by the control executor on an abstract ConfigParser: recognised key sets are observed from the parser itself, every recognised key is shown to reach its '
          'destination, an arbitrary other key (opaque sentinel) is rejected in every section, terminal values win over file values; the chain documented <= recognised and emitted <= accepted-by-API is checked '
-         'against docs/manual/cli.rst and the API source; the hand-over in cli.run is checked on its call sites.')
+         'against docs/manual/cli.rst and the API source; the hand-over in cli.run is checked on its call sites; API values rendered in the documented text format (all combinations of separator / comment styles) '
+         'are shown to arrive unchanged at their destinations.')
 ASSUMPTIONS = ['configparser.ConfigParser / pathlib.Path / os.path behave as modelled (sections, items, has_option, get*, suffix handling)',
                'the parser inspects option NAMES only by comparison with string literals (so one opaque unknown key stands for all)',
                'equality of the computed results between CLI and API is only covered by the bounded concrete run']
